@@ -391,6 +391,7 @@ func (bucket *Bucket) inTransactionThen(fn func(txn *sql.Tx) error, committed fu
 		break
 	}
 	if err == nil && committed != nil {
+		verifPoint("txn.post", bucket.name)
 		committed()
 	}
 	return remapError(err)
